@@ -192,11 +192,12 @@ func (t *tree) doInsert(
 				t.pendingRemovedNodes = append(t.pendingRemovedNodes, ptr.ExtractUnchecked())
 			}
 
+			// No longer eligible for eviction as it is dirty. This must happen before the value is
+			// replaced as the cache accounts for the size of the cached (old) value.
+			t.cache.rollbackNode(ptr)
 			n.Value = val
 			n.Clean = false
 			ptr.SetDirty()
-			// No longer eligible for eviction as it is dirty.
-			t.cache.rollbackNode(ptr)
 			return insertResult{
 				newRoot:      ptr,
 				insertedLeaf: ptr,
